@@ -147,6 +147,7 @@ type tr struct {
 	sseen      map[*types.Named]bool
 	monadic    map[*types.Func]bool
 	mutates    map[*types.Func]bool
+	opaqueSeen map[string]*types.Func
 	usedFields map[*types.Var]bool
 	outObjs    map[types.Object]bool    // pointer out-parameters of the function being translated
 	outNames   []string                 // their names, in parameter order
@@ -274,8 +275,11 @@ func main() {
 	fmt.Printf("set_option maxRecDepth 4000\nset_option linter.unusedVariables false\nnamespace %s\n\n", sp.Namespace)
 	// uninterpreted functions: section variables, parameters of every definition that mentions them
 	for _, oq := range sp.Opaque {
-		var fn *types.Func
+		fn := t.opaqueSeen[oq]
 		for _, p := range t.l.cache {
+			if fn != nil {
+				break
+			}
 			for _, o := range p.info.Defs {
 				if f, ok := o.(*types.Func); ok && f.FullName() == oq {
 					fn = f
@@ -1129,6 +1133,9 @@ func (t *tr) leanType(n ast.Node, ty types.Type) string {
 	case *types.Interface:
 		if ty.String() == "error" {
 			return "Bool" // an error value is rendered as the flag "non-nil"
+		}
+		if len(t.sp.Opaque) > 0 {
+			return "Go.Iface" // a value of interface type is only handed to uninterpreted functions
 		}
 	}
 	t.fail(n, "type %s", ty)
@@ -2255,6 +2262,11 @@ func (t *tr) callStmt(sb *strings.Builder, c *ast.CallExpr, lhs []ast.Expr, defi
 			if id, ok := u.X.(*ast.Ident); ok {
 				if tv0, ok := t.p.info.Types[id]; ok && isBytesBuffer(tv0.Type) {
 					bits, signed, isInt := intInfo(t.p.info.Types[c.Args[2]].Type)
+					if isInt && signed && bits == 32 {
+						v := "(Go.toU 32 " + t.atom(c.Args[2]) + ")"
+						fmt.Fprintf(sb, "%s%s := %s ++ [%s / 16777216 %% 256, %s / 65536 %% 256, %s / 256 %% 256, %s %% 256]\n", ind, name(id.Name), name(id.Name), v, v, v, v)
+						return true
+					}
 					if isInt && !signed && (bits == 16 || bits == 32) {
 						v := t.atom(c.Args[2])
 						if bits == 16 {
@@ -2306,13 +2318,33 @@ func (t *tr) callStmt(sb *strings.Builder, c *ast.CallExpr, lhs []ast.Expr, defi
 		}
 	}
 	g := t.callee(t.p, c)
+	if g != nil {
+		for _, oq := range t.sp.Opaque {
+			if g.FullName() == oq {
+				// an uninterpreted function: its value, taken apart when there are several results
+				ex := t.expr(c)
+				nres := g.Type().(*types.Signature).Results().Len()
+				switch {
+				case lhs == nil:
+					fmt.Fprintf(sb, "%slet _ := %s\n", ind, ex)
+				case len(lhs) == 1:
+					t.assignTo(sb, lhs[0], ex, define, ind, c)
+				default:
+					if len(lhs) != nres {
+						t.fail(c, "call with %d results assigned to %d", nres, len(lhs))
+					}
+					tmp := t.fresh("res")
+					fmt.Fprintf(sb, "%slet %s := %s\n", ind, tmp, ex)
+					for i, l := range lhs {
+						t.assignTo(sb, l, proj(tmp, i, nres), define, ind, c)
+					}
+				}
+				return true
+			}
+		}
+	}
 	if g == nil || t.funcs[g] == nil {
 		return false
-	}
-	for _, oq := range t.sp.Opaque {
-		if g.FullName() == oq {
-			return false // an uninterpreted function: an expression
-		}
 	}
 	sig := g.Type().(*types.Signature)
 	if len(t.outParams(g)) > 0 {
@@ -2862,6 +2894,13 @@ func (t *tr) cond(e ast.Expr) string {
 		case token.EQL, token.NEQ:
 			// nil comparisons of function fields and slices
 			if id, ok := x.Y.(*ast.Ident); ok && id.Name == "nil" {
+				if tvx, ok := t.p.info.Types[x.X]; ok && tvx.Type != nil && tvx.Type.String() == "error" {
+					// an error value is the flag "non-nil"
+					if x.Op == token.EQL {
+						return t.atom(x.X) + " = false"
+					}
+					return t.atom(x.X) + " = true"
+				}
 				if pid, ok := x.X.(*ast.Ident); ok {
 					if o := t.p.info.Uses[pid]; o != nil && t.outObjs[o] {
 						if x.Op == token.EQL {
@@ -2985,6 +3024,10 @@ func (t *tr) callExpr(c *ast.CallExpr, tv types.TypeAndValue) string {
 	if g != nil {
 		for _, oq := range t.sp.Opaque {
 			if g.FullName() == oq {
+				if t.opaqueSeen == nil {
+					t.opaqueSeen = map[string]*types.Func{}
+				}
+				t.opaqueSeen[oq] = g
 				var args []string
 				if g.Type().(*types.Signature).Recv() != nil {
 					args = append(args, t.atom(c.Fun.(*ast.SelectorExpr).X))
